@@ -227,6 +227,19 @@ def measOp (p : Prog) (reg : List Ref) : R Prog :=
   | .error e => .error e
   | .ok (p1, _) => .ok p1
 
+/-- `Program.append(op, [r])` as `All.__or__` calls it -/
+def appendGate1 (p : Prog) (k : Int) (r : Ref) : R Prog :=
+  match p.append (.gate k) [r] [] with
+  | .error e => .error e
+  | .ok (q, _) => .ok q
+
+/-- `All(op) | reg` for a one-mode gate: the whole selection is tested first (`_test_regrefs`), then the gate is
+appended to every item separately; an empty selection is accepted and does nothing -/
+def allOp (p : Prog) (reg : List Ref) (k : Int) : R Prog :=
+  match p.testRegrefs reg with
+  | .error e => .error e
+  | .ok _ => reg.foldlM (fun q r => q.appendGate1 k r) p
+
 def lock (p : Prog) : Prog := { p with locked := true }
 
 /-- `Program(parent)` (the parent gets locked as a side effect) -/
@@ -508,6 +521,18 @@ def gaussOps (D : Type) [DataSem D] : BackendOps D (PS D) :=
   ⟨PS.begin, PS.reset, fun _ cs s => PS.runCircuit cs s, PS.getModes, PS.stateNone⟩
 def bosOps (D : Type) [DataSem D] : BackendOps D (PS D) :=
   ⟨PS.begin, PS.reset, PS.bosRun, PS.getModes, PS.stateNone⟩
+
+/-- insertion of a dict key (ascending, no repetition) -/
+def insertKey (m : Nat) : List Nat → List Nat
+  | [] => [m]
+  | x :: xs => if m < x then m :: x :: xs else if m = x then x :: xs else x :: insertKey m xs
+
+/-- `_run_program` / `run_prog`: the keys of `samples_dict` (`Result.samples_dict`) after a segment — the indices
+(`r.ind`, not the positions) of every subsystem a measurement of the segment acted on -/
+def samplesKeys (cs : List Cmd) : List Nat :=
+  cs.foldl (fun ks c => match c.op with
+    | .measure => c.reg.foldl (fun ks m => insertKey m ks) ks
+    | _ => ks) []
 
 /-- history alphabet -/
 inductive Ev
